@@ -5,6 +5,7 @@ package wal
 import (
 	"errors"
 	"os"
+	"time"
 
 	zz "github.com/basekick-labs/arc/internal/zzverif"
 	"github.com/rs/zerolog"
@@ -247,5 +248,44 @@ func VerifC06Formats() {
 	zz.Assert(rerr == nil, "ReadAll failed on an intact file")
 	zz.Assert(len(entries) == 1 && c06Key(entries[0]) == int(b), "an intact row-format entry was not returned")
 	zz.Assert(r.CorruptedEntries == 0, "an intact entry was counted as corrupted")
+	zz.Reach("end")
+}
+
+// VerifC06Rotation: the real writer rotates after every entry (size limit 1 byte) while two
+// entries are appended; the clock readings at which the three WAL files are created are
+// 1 ns, 999 us, 1 ms or 1 s apart. Read back with the real Reader, the files of the
+// directory must yield exactly the two entries that were completely written - a rotation
+// must never reopen a file that already holds entries and put a second file header in the
+// middle of it. (The clock gaps are four concrete scenarios: concrete execution.)
+func VerifC06Rotation() {
+	dir := zz.TempPath("waldir")
+	if err := os.MkdirAll(dir, 0o700); err != nil {
+		panic(err)
+	}
+	w := &Writer{entryChan: make(chan walEntry, 8), logger: zerolog.Nop(),
+		config: WriterConfig{WALDir: dir, SyncBytes: 1 << 40, MaxSizeBytes: 1, MaxAge: 1000 * time.Hour}}
+	const t0 = int64(1700000000_000000001)
+	gap := []int64{1, 999_000, 1_000_000, 1_000_000_000}[zz.Choice("gap", 4)]
+	zz.ClockFixed(t0)
+	zz.Assert(w.rotate() == nil, "initial rotation failed")
+	for i := 0; i < 2; i++ {
+		zz.Assert(w.AppendRaw([]byte{0x91, 0x81, 0xa1, 'k', byte(i + 1)}) == nil, "append")
+		e := <-w.entryChan
+		zz.ClockFixed(t0 + int64(i+1)*gap)
+		w.writeEntry(e) // writes the entry, then rotates because the size limit is reached
+	}
+	if w.currentFile != nil {
+		_ = w.currentFile.Close()
+	}
+	total := 0
+	for _, p := range zz.FSList() {
+		if len(p) < len(dir) || p[:len(dir)] != dir {
+			continue
+		}
+		entries, err := NewReader(p, zerolog.Nop()).ReadAll()
+		zz.Assert(err == nil, "a WAL file written by the writer itself cannot be read")
+		total += len(entries)
+	}
+	zz.Assert(total == 2, "the WAL files do not yield exactly the entries that were completely written")
 	zz.Reach("end")
 }
